@@ -1043,7 +1043,7 @@ MANIFEST_ENTRY = {
              'shift pairs, equal the model fixedSampling sample for sample (so the two methods are one function), and the array '
              'the Lean driver prints is that model; every element of the model is norm * unit phase * the 2-D physical focusing '
              'integral at ((k-M//2) dx_out - shift_y, (l-N//2) dx_out - shift_x), also written in the reported coordinates '
-             'fftrange(N)[l]*dx; the routes agree at the same physical place: a fixed-sampling sample (any requested dx, shift, generated Q/shift) and an FFT-route sample (as written: pad, rotate, DFT, rotate back) with the same physical coordinate are equal up to the unit phase of the shift, and focus_fixed_sampling asked for the reported FFT spacing and the padded length IS the FFT route sample for sample; the reported FFT spacing requested as output_dx makes both generated kernel constants 1/N1; focus(Q).unfocus(1) and unfocus(Q).focus(1) report the spacing they started from for every padded shape; the coordinate RichData.x/.y report, as translated (make_xy_grid step incl. the diameter branch, coordinate = fftrange value * step, which shape index feeds x / y, along which array axis each varies, unpack order), is (l - N//2) dx; tilt theorem (k waves across D move the focal field by exactly k lambda z/D, any real k) and spot '
+             'fftrange(N)[l]*dx; the routes agree at the same physical place: a fixed-sampling sample (any requested dx, shift, generated Q/shift) and an FFT-route sample (as written: pad, rotate, DFT, rotate back) with the same physical coordinate are equal up to the unit phase of the shift, and focus_fixed_sampling asked for the reported FFT spacing and the padded length IS the FFT route sample for sample (both directions), and in 2-D with the norms of both routes (routes_agree_2d: x through the reported spacing, y through the true axis-0 spacing); the reported FFT spacing requested as output_dx makes both generated kernel constants 1/N1; focus(Q).unfocus(1) and unfocus(Q).focus(1) report the spacing they started from for every padded shape; the coordinate RichData.x/.y report, as translated (make_xy_grid step incl. the diameter branch, coordinate = fftrange value * step, which shape index feeds x / y, along which array axis each varies, unpack order), is (l - N//2) dx; tilt theorem (k waves across D move the focal field by exactly k lambda z/D, any real k) and spot '
              'location on both axes at once; a point source unfocuses to the corresponding 2-D tilt; p more output samples of '
              'shift (p any integer, either axis, either direction) translate the result by exactly p samples; FFT route: the '
              'transform / rotation names read off the source of focus and unfocus give the centred DFT (every length), which '
